@@ -70,4 +70,11 @@ def check(ctx):
     rhs_rule(ctx, "C03-e")  # every step conserves what the previous level holds: no value is lifted or cut before the solve
     check_interp_options(ctx, "C03-f", ["bluebonnet.flow.reservoir", "bluebonnet.flow.flowproperties"], 6)
     fvf_and_alpha(ctx, "C03-d")
+    from .c04 import check_all_steps_and_storage
+    from .c09 import check_tables_not_mutated
+    from .c01 import check_boundary_row
+
+    check_all_steps_and_storage(ctx, "C03-h", "C03-i")
+    check_tables_not_mutated(ctx, "C03-g")
+    check_boundary_row(ctx, "C03-j")
     ctx.floor("C03", len(ctx.obligs), 10, "recovery obligations")
